@@ -315,6 +315,116 @@ Section Cat.
     - rewrite <- ev_gram, <- ev_det. eapply teq_sound; eauto.
   Qed.
 
+  (* ---------------------------------------------------------------- classes that supply their own matrices *)
+  Definition inverse_ok (e : entry) : Prop :=
+    match e_jinv e with
+    | Some Ji => f_mmul (e_pdim e) (evm (e_jac e)) (evm Ji) = f_identity (e_pdim e)
+                 /\ f_mmul (e_ldim e) (evm Ji) (evm (e_jac e)) = f_identity (e_ldim e)
+    | None => e_ldim e < e_pdim e
+    end.
+
+  Definition inv_is (e : entry) (Gi : list (list texpr)) : Prop :=
+    exists m, e_jinv e = Some m /\ evm m = evm Gi.
+
+  (* the stored matrix of the arm is, as a matrix of field elements, the supplied one *)
+  Definition stored_as_supplied (s : supplied) (e : entry) : Prop :=
+    match s with
+    | SupNone => evm (e_jac e) = D_matrix (e_ldim e) (e_expr e)
+    | SupJac G => evm (e_jac e) = evm G
+    | SupInv Gi => inv_is e Gi
+    | SupBoth G Gi => evm (e_jac e) = evm G /\ inv_is e Gi
+    end.
+
+  (* what the object exposes: the supplied matrix, unchanged; the other matrix of the pair is its inverse whenever
+     the arm computes it; metric and determinant are those of the stored Jacobian *)
+  Definition exposes (s : supplied) (e : entry) : Prop :=
+    stored_as_supplied s e
+    /\ (derives_inverse s = true -> inverse_ok e)
+    /\ evm (e_metric e) = f_gram (e_ldim e) (evm (e_jac e))
+    /\ ev (e_mdet e) = f_det (e_ldim e) (f_gram (e_ldim e) (evm (e_jac e))).
+
+  Definition same_mat_ok (P : plan) (A B : list (list texpr)) : Prop := all2P (all2P (teq_ok P)) A B.
+
+  Definition same_inv_ok (P : plan) (e : entry) (Gi : list (list texpr)) : Prop :=
+    match e_jinv e with Some m => same_mat_ok P m Gi | None => True end.
+
+  Definition sup_conditions (s : supplied) (e : entry) : Prop :=
+    let P := mkplan_sup e s in
+    Forall (dfd S) (e_expr e)
+    /\ plan_cond P
+    /\ match s with
+       | SupNone => match jac_ref (e_ldim e) (e_expr e) with
+                    | Some R => same_mat_ok P (e_jac e) R
+                    | None => True
+                    end
+       | SupJac G => same_mat_ok P (e_jac e) G
+       | SupInv Gi => same_inv_ok P e Gi
+       | SupBoth G Gi => same_mat_ok P (e_jac e) G /\ same_inv_ok P e Gi
+       end
+    /\ match e_jinv e with
+       | Some Ji => same_mat_ok P (t_mmul (e_pdim e) (e_jac e) Ji) (t_identity (e_pdim e))
+                    /\ same_mat_ok P (t_mmul (e_ldim e) Ji (e_jac e)) (t_identity (e_ldim e))
+       | None => True
+       end
+    /\ same_mat_ok P (e_metric e) (t_gram (e_ldim e) (e_jac e))
+    /\ teq_ok P (e_mdet e) (t_det (e_ldim e) (t_gram (e_ldim e) (e_jac e))).
+
+  Lemma same_inv_sound P e Gi :
+    plan_valid P = true -> plan_cond P -> same_inv P e Gi = true -> same_inv_ok P e Gi -> inv_is e Gi.
+  Proof.
+    unfold same_inv, same_inv_ok, inv_is. intros Hv Hc. destruct (e_jinv e) as [m|]; [|discriminate].
+    intros H Hd. exists m. split; [reflexivity|]. eapply mat_teq_sound; eauto.
+  Qed.
+
+  Theorem check_supplied_sound s e : check_supplied s e = true -> sup_conditions s e -> exposes s e.
+  Proof.
+    unfold check_supplied, sup_conditions, exposes.
+    set (P := mkplan_sup e s). intros Hc (Hdf & Hpc & C1 & C2 & C3 & C4).
+    apply andb_true_iff in Hc. destruct Hc as [Hc H].
+    apply andb_true_iff in Hc. destruct Hc as [Hc H0].
+    apply andb_true_iff in Hc. destruct Hc as [Hc H1].
+    apply andb_true_iff in Hc. destruct Hc as [Hc H2].
+    apply andb_true_iff in Hc. destruct Hc as [Hshape Hv].
+    split; [|split; [|split]].
+    - destruct s as [|G|Gi|G Gi]; simpl in *.
+      + unfold chk_jac in H2. destruct (jac_ref (e_ldim e) (e_expr e)) as [R|] eqn:ER; [|discriminate].
+        rewrite <- (jac_ref_sound _ _ _ ER Hdf). eapply mat_teq_sound; eauto.
+      + eapply mat_teq_sound; eauto.
+      + eapply same_inv_sound; eauto.
+      + apply andb_true_iff in H2. destruct H2 as [Ha Hb]. destruct C1 as [C1a C1b]. split.
+        * eapply mat_teq_sound; eauto.
+        * eapply same_inv_sound; eauto.
+    - intros Hd. rewrite Hd in H1. simpl in H1. unfold chk_inv in H1. unfold chk_shape in Hshape. unfold inverse_ok.
+      destruct (e_jinv e) as [Ji|].
+      + apply andb_true_iff in H1. destruct H1 as [Ha Hb]. destruct C2 as [C2a C2b]. split.
+        * rewrite <- ev_mmul, <- ev_identity. eapply mat_teq_sound; eauto.
+        * rewrite <- ev_mmul, <- ev_identity. eapply mat_teq_sound; eauto.
+      + apply andb_true_iff in Hshape. destruct Hshape as [_ Hlt]. now apply Nat.ltb_lt in Hlt.
+    - rewrite <- ev_gram. eapply mat_teq_sound; eauto.
+    - rewrite <- ev_gram, <- ev_det. eapply teq_sound; eauto.
+  Qed.
+
+  (* a class that supplies the TRUE Jacobian of its expressions gets a coherent object ... *)
+  Theorem supplied_consistent_coherent G e :
+    exposes (SupJac G) e -> evm G = D_matrix (e_ldim e) (e_expr e) -> coherent e.
+  Proof.
+    unfold exposes, coherent, inverse_ok. simpl. intros (Hs & Hi & Hm & Hd) HG.
+    split; [congruence|]. split; [exact (Hi eq_refl)|]. split; assumption.
+  Qed.
+
+  (* ... and a class that supplies another matrix is not repaired: the object exposes exactly that matrix (so its
+     Jacobian is NOT the derivative of the expressions), together with its true inverse, its Gram matrix and the
+     determinant of that - one inconsistency (the user's), no second one *)
+  Theorem supplied_inconsistent_kept G e :
+    exposes (SupJac G) e -> evm G <> D_matrix (e_ldim e) (e_expr e) ->
+    evm (e_jac e) = evm G /\ evm (e_jac e) <> D_matrix (e_ldim e) (e_expr e) /\ inverse_ok e
+    /\ evm (e_metric e) = f_gram (e_ldim e) (evm (e_jac e))
+    /\ ev (e_mdet e) = f_det (e_ldim e) (f_gram (e_ldim e) (evm (e_jac e))).
+  Proof.
+    unfold exposes. simpl. intros (Hs & Hi & Hm & Hd) HG.
+    split; [assumption|]. split; [congruence|]. split; [exact (Hi eq_refl)|]. split; assumption.
+  Qed.
+
   (* ---------------------------------------------------------------- the pinned reference definitions *)
   Definition ref_conditions (tbl : list (string * list texpr)) (e : entry) : Prop :=
     match lookup_ref (e_name e) tbl with
